@@ -256,6 +256,26 @@ def r2_validation(repo, rep):
                       'the entries are validated with the numeric range test `%s`: values strictly between 0 and 1 (and NaN) pass, so tables with entries outside {0, 1} are accepted' % txt[:100],
                       f.loc(n.expr))
         classes['zero-one'] = [(n, lab)]
+  # the 0/1 test must see the entries as given: a value-changing conversion of the eligibility columns (integer cast,
+  # rounding, clipping, filling, to_numeric with coercion) before the acceptance maps 0.5 or '1' to a legal code
+  LOSSY = ('astype', 'round', 'clip', 'fillna', 'abs', 'replace', 'to_numeric', 'floor', 'ceil', 'trunc', 'rint')
+  for n in g.nodes:
+    if n.kind != 'stmt' or not isinstance(n.ast, ast.Assign) or store not in g.reachable(n, cfgmod.no_exc):
+      continue
+    vx = rd.expand(n, n.ast.value, keep=(dfp,))[0]
+    calls_ = [c_ for c_ in ast.walk(vx) if isinstance(c_, ast.Call) and (c_.func.attr if isinstance(c_.func, ast.Attribute) else getattr(c_.func, 'id', '')) in LOSSY]
+    if not calls_:
+      continue
+    tgt_txt = ' '.join(norm(rd.expand(n, t_, keep=(dfp,))[0]) if not isinstance(t_, ast.Name) else t_.id for t_ in n.ast.targets) + ' ' + norm(vx)
+    touches_values = any(k_ in tgt_txt for k_ in ("'control'", "'treatment'", "'exclude'", '.control', '.treatment', '.exclude'))
+    for c_ in calls_:
+      nm_ = c_.func.attr if isinstance(c_.func, ast.Attribute) else c_.func.id
+      arg_txt = ' '.join(norm(a_) for a_ in list(c_.args) + [k.value for k in c_.keywords])
+      benign_cast = nm_ == 'astype' and any(k_ in arg_txt for k_ in ("'str'", 'str', "'object'", "'category'"))
+      if touches_values and not benign_cast:
+        rep.violation('R2/validation', f.qualname, norm(n.ast)[:140],
+                      'the eligibility columns are converted with `%s` before the table is accepted (`%s`): entries outside {0, 1} (0.5, 1.9, \'1\', NaN) are mapped to legal codes instead of being rejected'
+                      % (norm(c_)[-60:], norm(n.ast)[:80]), f.loc(n.ast))
   missing = [name for name, _ in GUARDS if name not in classes]
   n_dom = sum(1 for n, lab, r in guards if n in dom or any(h.kind == 'for' and n in g.loop_body_nodes(h) for h in dom))
   def on_every_path(n0):
@@ -291,9 +311,17 @@ def r2_validation(repo, rep):
             f.qualname, 'df = df.copy() missing', 'GeoEligibility.__init__ modifies the caller\'s DataFrame in place (%s) without copying it first'
             % '; '.join(norm(e.stmt)[:50] for e in bad[:3]), f.loc(bad[0].stmt) if bad else f.loc())
   # canonicalisation to str dominates the uniqueness guard and the store
+  def tgt_text(n_):
+    t_ = n_.ast.targets[0]
+    if isinstance(t_, ast.Subscript):          # df[_GEO] with a module constant naming the column
+      return norm(t_.value) + '[' + norm(rd.expand(n_, t_.slice)[0]) + ']'
+    return norm(t_)
   canon = [n for n in g.nodes if n.kind == 'stmt' and isinstance(n.ast, ast.Assign)
-           and re.search(r"(\.geo|\['geo'\])$", norm(n.ast.targets[0])) and re.search(r"astype\(('str'|str)\)", norm(n.ast.value))]
-  if not canon:
+           and re.search(r"(\.geo|\['geo'\])$", tgt_text(n)) and re.search(r"astype\(('str'|str)\)", norm(n.ast.value))]
+  if not canon and any(isinstance(c_, ast.Call) and isinstance(c_.func, ast.Attribute) and c_.func.attr in ('astype', 'map', 'apply') and re.search(r"\bstr\b", norm(c_))
+                       for c_ in ast.walk(f.node)):
+    rep.undecided('R2/canonical-ids', 'geo IDs are strings', 'a conversion to str exists, but not as an assignment to the geo column in the recognised form', f.loc())
+  elif not canon:
     rep.violation('R2/canonical-ids', f.qualname, 'no astype(str) on the geo column',
                   'geo IDs are not converted to strings: IDs that differ only by type are treated as different geos', f.loc())
   else:
